@@ -173,6 +173,56 @@ theorem streaming_v1 {x : B} {h : V1.Header} (hp : V1.parseBytes x = .ok h)
   · simpa using hr
   · simp only [List.length_nil]; omega
 
+/-- **auto-detect history form.** The same receiver built on `HeaderResult::parse`:
+it ends with the same (tagged) header as a one-shot parse, for v2 headers and for
+US-ASCII v1 lines, however the stream is split. -/
+theorem streaming_auto {x : B} (payload : B) (reads : List B) (hr : reads.flatten = x ++ payload) :
+    (∀ h, Auto.parse x = .v2 (.ok h) →
+      receive Auto.parse HeaderResult.isIncomplete [] reads = some (.v2 (.ok h))) ∧
+    (∀ h, Auto.parse x = .v1 (.ok h) → (∀ c ∈ h.header, c < 0x80) →
+      receive Auto.parse HeaderResult.isIncomplete [] reads = some (.v1 (.ok h))) := by
+  constructor
+  · intro h hp
+    have hp2 : V2.parse x = .ok h := (C04.auto_v2_ok_iff x h).mp hp
+    obtain ⟨hself, hpre, -, hlen⟩ := V2.parse_header_self hp2
+    obtain ⟨s, hs⟩ := hpre
+    apply receive_generic Auto.parse HeaderResult.isIncomplete (x ++ payload) h.header.length (.v2 (.ok h))
+    · rw [← hs]; simp only [List.length_append]; omega
+    · intro n hn
+      have : (x ++ payload).take n = x.take n := by
+        rw [List.take_append_of_le_length]; rw [← hs]; simp only [List.length_append]; omega
+      rw [this]; exact (auto_prefix_incomplete n).1 h hp hn
+    · intro m hm
+      have : (x ++ payload).take m = h.header ++ ((s ++ payload).take (m - h.header.length)) := by
+        rw [← hs, List.append_assoc, List.take_append]
+        rw [List.take_of_length_le hm]
+      rw [this]
+      exact (C04.auto_v2_ok_iff _ h).mpr (V2.parse_trailing hself _)
+    · rfl
+    · simpa using hr
+    · simp only [List.length_nil]; omega
+  · intro h hp hascii
+    have hp1 : V1.parseBytes x = .ok h := ((C04.auto_v1_iff x _).mp hp).2
+    obtain ⟨-, hhdr, hpre, -⟩ := C04.v1_bytes_trailing hp1 payload
+    obtain ⟨s, hs⟩ := hpre
+    have h15 : 15 ≤ h.header.length := (C01.accepted_header_facts hp1).2.2.2.1
+    have hauto_hdr : Auto.parse h.header = .v1 (.ok h) := ((C04.auto_trailing (x := x) payload).2 h hp).2
+    apply receive_generic Auto.parse HeaderResult.isIncomplete (x ++ payload) h.header.length (.v1 (.ok h))
+    · rw [← hs]; simp only [List.length_append]; omega
+    · intro n hn
+      have : (x ++ payload).take n = x.take n := by
+        rw [List.take_append_of_le_length]; rw [← hs]; simp only [List.length_append]; omega
+      rw [this]; exact (auto_prefix_incomplete n).2 h hp hascii hn
+    · intro m hm
+      have : (x ++ payload).take m = h.header ++ ((s ++ payload).take (m - h.header.length)) := by
+        rw [← hs, List.append_assoc, List.take_append]
+        rw [List.take_of_length_le hm]
+      rw [this]
+      exact ((C04.auto_trailing (x := h.header) _).2 h hauto_hdr).1
+    · rfl
+    · simpa using hr
+    · simp only [List.length_nil]; omega
+
 /-- Non-vacuity: `PROXY UNKNOWN\r\n` delivered as "PROXY UNK", "", "NOWN\r", "\nGET". -/
 example :
     receive V1.parseBytes isIncompleteV1 []
